@@ -20,6 +20,11 @@ sys.path.insert(0, HERE); sys.path.insert(0, os.path.join(VERIF, 'harness'))
 import build
 
 class EncoderMismatch(Exception): pass
+class NativeViolation(Exception):
+    """raised by a harness' validate() when the REAL build, run on a concrete input, breaks the property against the independent reference
+    (this is a property violation observed natively, not a disagreement between engine and native build)"""
+    def __init__(s, key, note, cex=None):
+        Exception.__init__(s, note); s.key = key; s.note = note; s.cex = cex
 class ObTimeout(Exception): pass
 
 def mkres(name, status='holds', **kw):
@@ -142,13 +147,15 @@ def main(argv=None):
     with ctx.Pool(min(jobs, max(1, len(obs))), initializer=_winit, initargs=(pid, ll, so, tier, seed), maxtasksperchild=None) as pool:
         # encoder validation runs in the parent meanwhile (own engine instance)
         it = pool.imap_unordered(_wrun, obs, chunksize=1)
-        nval = 0; val_err = None
+        nval = 0; val_err = None; native_viol = None
         try:
             _winit(pid, ll, so, tier, seed)
             lib = ctypes.CDLL(so) if so else None
             nval = H.validate(_W['E'], lib) if hasattr(H, 'validate') else 0
         except EncoderMismatch as e:
             val_err = str(e)
+        except NativeViolation as e:
+            native_viol = e
         except Exception as e:
             val_err = 'validation crashed: %s\n%s' % (e, traceback.format_exc()[-1500:])
         for r in it:
@@ -160,6 +167,9 @@ def main(argv=None):
         write_evidence(ev_path, pid, tier, seed, H, results, nval, src_sha, t_start, t_build, [], [], note='encoder validation failed: ' + val_err)
         return 2
 
+    if native_viol is not None:
+        r = mkres('native/' + native_viol.key, 'violated', note=native_viol.note); r['key'] = native_viol.key; r['cex'] = native_viol.cex; r['native'] = True
+        results.append(r)
     # ---- verdicts
     known = load_known(pid)
     viol = [r for r in results if r['status'] == 'violated']
@@ -170,7 +180,8 @@ def main(argv=None):
     for r in sorted(viol, key=lambda r: r['name']):
         key = r.get('key') or r['name']
         if key in seen_keys: continue
-        ok, text = native_replay(pid, so, next(o for o in obs if o['name'] == r['name']), r['cex']) if (so and r.get('cex') is not None and hasattr(H, 'replay')) else (None, 'no native replay available for this obligation')
+        if r.get('native'): ok, text = True, 'observed on the real build during the concrete validation runs: ' + (r['note'] or '')
+        else: ok, text = native_replay(pid, so, next(o for o in obs if o['name'] == r['name']), r['cex']) if (so and r.get('cex') is not None and hasattr(H, 'replay')) else (None, 'no native replay available for this obligation')
         r['replay'] = dict(reproduced=ok, text=text)
         if ok is False:
             unrepro.append(r); continue
@@ -179,7 +190,7 @@ def main(argv=None):
         if kf is not None:
             known_hits.setdefault(kf['key'], (kf, r)); continue
         path = os.path.join(rdir, hashlib.sha1(key.encode()).hexdigest()[:12] + '.json')
-        json.dump(dict(property=pid, key=key, obligation=next(o for o in obs if o['name'] == r['name']), cex=r['cex'], note=r['note'], replay=r['replay']), open(path, 'w'), indent=1, default=str)
+        json.dump(dict(property=pid, key=key, obligation=next((o for o in obs if o['name'] == r['name']), None), cex=r['cex'], note=r['note'], replay=r['replay']), open(path, 'w'), indent=1, default=str)
         reported.append((r, path))
     write_evidence(ev_path, pid, tier, seed, H, results, nval, src_sha, t_start, t_build, reported, list(known_hits.values()), unrepro=unrepro)
     tot_paths = sum(r['paths'] for r in results); tot_q = sum(r['queries'] for r in results)
@@ -238,4 +249,5 @@ def write_evidence(path, pid, tier, seed, H, results, nval, src_sha, t_start, t_
     json.dump(ev, open(path, 'w'), indent=1, default=str)
 
 if __name__ == '__main__':
+    sys.modules.setdefault('core', sys.modules['__main__'])          # the harness modules import this file as `core`: one set of exception classes
     sys.exit(main())
